@@ -124,8 +124,143 @@ fn batch(args: &[String]) {
     println!("{{\"tried\":{},\"failed\":{}}}", tried, failed);
 }
 
+/// api sort3 <maxlen> : C14 on the public API, bounded.  For every set of three distinct item names over a
+/// small alphabet (the names of the property text, e.g. a2 / a10 / a1b, are in it): build three sibling
+/// AR-PACKAGEs in each of the 6 orders, sort the model, serialize -- all six results must be identical,
+/// sorting must not panic, must be idempotent and must keep every element.
+fn api_sort3(args: &[String]) {
+    use autosar_data::*;
+    let maxlen: usize = args.get(0).and_then(|s| s.parse().ok()).unwrap_or(3);
+    let tail = [b'a', b'b', b'0', b'1', b'2'];
+    let mut names: Vec<String> = Vec::new();
+    for first in [b'a', b'b'] {
+        let mut cur: Vec<Vec<u8>> = vec![vec![first]];
+        for _ in 1..=maxlen {
+            for c in &cur { names.push(String::from_utf8(c.clone()).unwrap()); }
+            if cur[0].len() == maxlen { break; }
+            cur = cur.iter().flat_map(|c| tail.iter().map(move |t| { let mut v = c.clone(); v.push(*t); v })).collect();
+        }
+    }
+    names.sort(); names.dedup();
+    let build = |order: &[&String]| -> Result<(String, String), String> {
+        let model = AutosarModel::new();
+        model.create_file("f.arxml", AutosarVersion::LATEST).map_err(|e| e.to_string())?;
+        let pkgs = model.root_element().create_sub_element(ElementName::ArPackages).map_err(|e| e.to_string())?;
+        for n in order { pkgs.create_named_sub_element(ElementName::ArPackage, n).map_err(|e| e.to_string())?; }
+        model.sort();
+        let once = model.root_element().serialize();
+        model.sort();
+        let twice = model.root_element().serialize();
+        Ok((once, twice))
+    };
+    let mut n = 0u64;
+    for i in 0..names.len() {
+        for j in (i + 1)..names.len() {
+            for k in (j + 1)..names.len() {
+                let t = [&names[i], &names[j], &names[k]];
+                let perms = [[0, 1, 2], [0, 2, 1], [1, 0, 2], [1, 2, 0], [2, 0, 1], [2, 1, 0]];
+                let mut first: Option<String> = None;
+                for p in perms {
+                    let order = [t[p[0]], t[p[1]], t[p[2]]];
+                    n += 1;
+                    match build(&order) {
+                        Ok((once, twice)) => {
+                            if once != twice { println!("FAIL sorting is not idempotent for siblings {:?}", order); return; }
+                            for nm in &order { if !once.contains(&format!("<SHORT-NAME>{}</SHORT-NAME>", nm)) { println!("FAIL sorting lost element {:?} of {:?}", nm, order); return; } }
+                            match &first { None => first = Some(once), Some(f) => if *f != once {
+                                println!("FAIL sorted result depends on the previous order: siblings {:?} inserted as {:?} sort differently than inserted as {:?}", t, order, [t[0], t[1], t[2]]);
+                                return;
+                            } }
+                        }
+                        Err(e) => { println!("FAIL building {:?}: {}", order, e); return; }
+                    }
+                }
+            }
+        }
+    }
+    println!("OK {} names={}", n, names.len());
+}
+
+/// C08 on the public API: one document, strict vs lenient (2-safety oracle, no expected outputs needed)
+fn strict_lenient_one(doc: &[u8]) -> Result<(), String> {
+    use autosar_data::*;
+    let d1 = doc.to_vec();
+    let d2 = doc.to_vec();
+    let rs = panic::catch_unwind(move || {
+        let m = AutosarModel::new();
+        m.load_buffer(&d1, "f.arxml", true).map(|(f, w)| (f.version(), w.len(), m.root_element().serialize())).map_err(|e| e.to_string())
+    });
+    let rl = panic::catch_unwind(move || {
+        let m = AutosarModel::new();
+        m.load_buffer(&d2, "f.arxml", false).map(|(f, w)| (f.version(), w.iter().map(|x| x.to_string()).collect::<Vec<_>>(), m.root_element().serialize())).map_err(|e| e.to_string())
+    });
+    let (rs, rl) = match (rs, rl) {
+        (Ok(a), Ok(b)) => (a, b),
+        _ => return Err(format!("loading panicked: {}", super::LAST.lock().unwrap().take().unwrap_or_default())),
+    };
+    match (rs, rl) {
+        (Ok((vs, nws, ts)), Ok((vl, wl, tl))) => {
+            if nws != 0 { return Err("strict loading returned warnings".to_string()); }
+            if !wl.is_empty() { return Err(format!("strict loading accepts a document for which lenient loading warns: {}", wl[0])); }
+            if vs != vl || ts != tl { return Err("strict and lenient loading succeed without warnings but produce different models".to_string()); }
+            Ok(())
+        }
+        (Err(es), Ok((_, wl, _))) => {
+            if wl.is_empty() { return Err(format!("strict loading fails ({}) but lenient loading succeeds without warnings", es)); }
+            if es != wl[0] { return Err(format!("strict error ({}) is not the first lenient warning ({})", es, wl[0])); }
+            Ok(())
+        }
+        (Ok(_), Err(el)) => Err(format!("lenient loading rejects ({}) a document that strict loading accepts", el)),
+        (Err(_), Err(_)) => Ok(()),
+    }
+}
+
+/// api strictlenient <corpus-file> <mutate:0|1> : every document (hex per line; a line starting with '!' marks a
+/// document that violates a documented constraint and must be rejected by strict loading) and, with mutate=1,
+/// every single-byte deletion and every duplication of a `<...>` token of it
+fn api_strict_lenient(args: &[String]) {
+    let text = std::fs::read_to_string(&args[0]).unwrap();
+    let mutate = args.get(1).map(|s| s == "1").unwrap_or(false);
+    let mut n = 0u64;
+    for line in text.lines() {
+        let (must_fail, hexs) = if let Some(r) = line.strip_prefix('!') { (true, r) } else { (false, line) };
+        let doc = unhex(hexs.trim());
+        n += 1;
+        if let Err(e) = strict_lenient_one(&doc) { println!("FAIL {} :: document {}", e, hex(&doc)); return; }
+        if must_fail {
+            let d = doc.clone();
+            let ok = autosar_data::AutosarModel::new().load_buffer(&d, "f.arxml", true).is_ok();
+            if ok { println!("FAIL strict loading accepts a document that violates a documented constraint :: document {}", hex(&doc)); return; }
+        }
+        if mutate {
+            for i in 0..doc.len() {
+                let mut m = doc.clone(); m.remove(i);
+                n += 1;
+                if let Err(e) = strict_lenient_one(&m) { println!("FAIL {} :: document {}", e, hex(&m)); return; }
+            }
+            let mut i = 0;
+            while i < doc.len() {
+                if doc[i] == b'<' {
+                    if let Some(j) = doc[i..].iter().position(|c| *c == b'>') {
+                        let mut m = doc[..i + j + 1].to_vec(); m.extend_from_slice(&doc[i..]);
+                        n += 1;
+                        if let Err(e) = strict_lenient_one(&m) { println!("FAIL {} :: document {}", e, hex(&m)); return; }
+                    }
+                }
+                i += 1;
+            }
+        }
+    }
+    println!("OK {}", n);
+}
+
 pub fn command(cmd: &str, args: &[String]) {
     match cmd {
+        "api" if args.get(0).map(|s| s.as_str()) == Some("strictlenient") => api_strict_lenient(&args[1..]),
+        "api" if args.get(0).map(|s| s.as_str()) == Some("strictlenient1") => {
+            match strict_lenient_one(&unhex(&args[1])) { Ok(()) => println!("{{\"outcome\":\"ok\"}}"), Err(e) => println!("{{\"outcome\":\"panic\",\"message\":{:?}}}", e) }
+        }
+        "api" if args.get(0).map(|s| s.as_str()) == Some("sort3") => api_sort3(&args[1..]),
         "batch" => batch(args),
         "ground" => ground(args),
         "find" => finder(args),
